@@ -98,8 +98,8 @@ var mandatory = map[string]map[string]bool{
 
 // Go-only fields: not wire fields of the document; one line of reason each.
 var goOnlyFields = map[string]string{
-	"control.DSC.Filename":     "path of the .dsc on disk, set by ParseDsc; a .dsc has no Filename field",
-	"control.Changes.Filename": "path of the .changes on disk, set by ParseChanges; a .changes has no Filename field",
+	"control.DSC.Filename":     "the path of the .dsc on disk (set by ParseDsc, used by Copy/Move/Remove/AbsFiles), not a field of the document",
+	"control.Changes.Filename": "the path of the .changes on disk (set by ParseChanges, used by Copy/Move/Remove/AbsFiles), not a field of the document",
 }
 
 func hasAll(set string, need string) bool {
@@ -296,13 +296,14 @@ func tagRule(p *Prog, r *Rule, only func(doc string, ti tagInfo, kind string) bo
 		s := structOf(n)
 		for _, ti := range docFields(s) {
 			key := doc + "." + ti.GoName
-			if ti.Skip {
+			if reason, ok := goOnlyFields[key]; ok {
+				if only == nil || only(doc, ti, "go-only") {
+					r.check(ti.Skip, key, p.Pos(n.Obj().Pos()), "excluded from the wire format with control:\"-\": "+reason,
+						"this field is "+reason+", but it has no control:\"-\" tag: a \""+ti.Wire+":\" field inside the document overwrites it (and Marshal writes it out)")
+				}
 				continue
 			}
-			if reason, ok := goOnlyFields[key]; ok {
-				if only == nil {
-					r.ok(key, p.Pos(n.Obj().Pos()), "not a wire field: "+reason)
-				}
+			if ti.Skip {
 				continue
 			}
 			kind, known := docTables[doc][ti.Wire]
